@@ -3,8 +3,9 @@ claim('C03', 'Coq theorems (model interpreters vs arithmetic specification) + ex
       'Theorems over all widths/values: two\'s complement, big-endian digits, BytesInteger/FormatField build and parse at '
       'the interpreter level, LEB128 as a relation (soundness, completeness, rejection of unterminated input), ZigZag '
       'bijection. The model is the reference; the library is compared with the extracted model on exhaustive 8-bit domains, '
-      'boundaries and PRNG samples, so a disagreement is itself the failing input. Floats, strings and composites are tied '
-      'by correspondence only (stated as partial in the evidence).', 'DESIGN.md 6/C03')
+      'boundaries and PRNG samples, so a disagreement is itself the failing input. Half-precision floats exhaustively (all 65536 patterns '
+      'widen and narrow back; NaNs canonicalised: a finite sweep evaluated by the kernel, lifted to the quantified statement). Single and '
+      'double floats, strings and composites are tied by correspondence only (stated as partial in the evidence).', 'DESIGN.md 6/C03')
 claim('C05', 'Coq theorems (sizeof discipline over all constructs; exactness by induction over the closed sequential fragment) + correspondence + sizeof/build/parse oracle',
       'sizeof_nokey: for EVERY construct of the model (59 classes, any nesting), context and path, sizeof never reports a missing '
       'key as KeyError/AttributeError. build_size_exact / C05_exact_closed: for every construct of the closed sequential fragment '
@@ -81,7 +82,8 @@ claim('C02', 'Coq theorems (build after parse is stable, by induction over the s
       'rebuild_fragment: for every construct of the closed sequential fragment with named Struct members, the value parsed from what was built builds the '
       'same bytes again, at any position, in any context; hence C02_reproduced_exactly (bytes the construct produced are reproduced) and '
       'C02_reencoding_is_idempotent (after one accepted re-encoding of ANY input nothing changes any more). dep_rebuild: the same for dependent layouts '
-      '(sizes and Switch / IfThenElse choices read from earlier integer fields). '
+      '(sizes and Switch / IfThenElse choices read from earlier integer fields). Struct members may be named or anonymous constants / padding '
+      '(anon_det). half_roundtrip: every non-NaN Float16 pattern is reproduced, NaNs are canonicalised (all 65536 patterns). '
       'C01_roundtrip_closed gives the parse half; bytesint_parse_then_build (one encoding per value), '
       'varint_normalises (non-minimal accepted, canonical emitted, stable), flag_canonical. The oracle evaluates build(parse(x)) idempotence '
       'on the implementation for non-canonical inputs (non-minimal VarInts, all flag bytes, padding, trailing bytes in regions, duplicate '
@@ -140,7 +142,9 @@ claim('C19', 'Coq model of the exporter ladder and of a reference reading of the
       'types), ksy_layout (the construct itself). ksy_describes_flat_struct: for every Struct of named flat members and every input it parses, '
       'reading the emitted schema gives every field the same identifier, extent and value (induction over the member list). '
       'ksy_describes_nested_struct: the same for Structs nested in Structs to depth 20 - every nested Struct gets a helper type type_<k> with a fresh k '
-      '(decimal names are injective), later types never shadow earlier ones, and every level reads to the same records. ksy_emit is compared '
+      '(decimal names are injective), later types never shadow earlier ones, and every level reads to the same records. '
+      'ksy_describes_dependent_struct: members sized by an earlier integer field of the same Struct (Bytes(this.n), Array(this.n, x)): the exported '
+      'size expression is evaluated in a scope holding the same integers as the construct\'s. ksy_emit is compared '
       'with the dictionary the real export_ksy() produces (stub YAML dumper), ksy_interp with an independent Python reading, ksy_layout with an '
       'instrumented parse, on generated exportable structs (integers, floats, bytes, strings in 5 encodings, flags, enums, nested structs, arrays, '
       'ranges, prefixed, padded, conditionals, bit structs, constants with non-verbatim fields) - 31k cases thorough; the layout oracle compares '
